@@ -91,3 +91,18 @@ B("c19-benign-reader-if-let", (RD, """                        match rt.strip_suf
                             do_it = true;
                             rt = stripped;
                         }"""))
+# repairs of D1 must be accepted (not behaviour-preserving, but the rule has to fall silent on a correct matcher)
+B("c19-repair-d1-byte-addressing", (FSM, "} else if let Some(c) = name.chars().nth(e.len()) {\n                        // partial match, token needs to be terminated with \".\"\n                        if c == '.' {",
+                                    "} else if let Some(c) = name.as_bytes().get(e.len()) {\n                        // partial match, token needs to be terminated with \".\"\n                        if *c == b'.' {"))
+B("c19-repair-d1-strip-prefix", (FSM, NM_OLD, """        if self.wildcard {
+            return true;
+        }
+        for e in &self.events {
+            if let Some(rest) = name.strip_prefix(e.as_str()) {
+                if rest.is_empty() || rest.starts_with('.') {
+                    return true;
+                }
+            }
+        }
+        false
+"""))
